@@ -56,6 +56,8 @@ import PyElf.Proofs.DynamicRoutes
 import PyElf.Proofs.DynamicErrors
 import PyElf.Proofs.DynamicTrunc
 import PyElf.Props.TieC09
+import PyElf.Model.DynCache
+import PyElf.Proofs.SigCache
 import PyElf.Props.TieC09Ext
 import PyElf.Props.TieC09Sh
 import PyElf.Props.C09Examples
@@ -1334,5 +1336,45 @@ example (hserve : Serves exTruncData (.dynamic 0) [0, 0x61, 0]) :
       rcases ht with rfl | rfl
       · exact Or.inr (by decide)
       · exact Or.inl (by decide))).1
+
+/-! ### the lazily built caches of `DynamicSegment` (`_num_symbols`, `_symbol_name_map`) -/
+
+/-- num_symbols_history_independent.  For ANY image and ANY dynamic table (no well-formedness): the k-th call of
+    `num_symbols()` on one object answers what the first call on a fresh object answers — the stateless count
+    `numSymbols` all the count theorems above are about — also after calls that raised (nothing is assigned then). -/
+theorem num_symbols_history_independent (env : Env) (S : ElfStructs) (data : Bytes) (ifc : FileIfc) (d : Dyn)
+    (iterSegs : R (List (String × Val))) (le : Bool) (k : Nat) :
+    (numHist env S data ifc d iterSegs le k).1 = List.replicate k (numSymbols env S data ifc d iterSegs le) := by
+  unfold numHist
+  rw [(Proofs.SigCache.run_answers _ _ _ _ (Proofs.SigCache.inv_init _)).1, List.map_replicate]
+  congr 1
+  unfold Model.SigCache.stateless numScan
+  cases numSymbols env S data ifc d iterSegs le <;> rfl
+
+/-- by_name_history_independent.  For ANY image: after ANY history of `get_symbol_by_name` calls on one object —
+    repeated names, absent names, calls whose walk raised — every answer is the stateless `getSymbolByName` (the
+    function `by_name_exact` / `seg_by_name_exact` / `by_name_of_enumeration` are about).  The harness's segment view
+    asks every second name on the walked object itself (after an abandoned partial `iter_symbols()`), the others on
+    fresh objects, and compares all of them with the stateless model. -/
+theorem by_name_history_independent (env : Env) (S : ElfStructs) (data : Bytes) (ifc : FileIfc) (d : Dyn)
+    (iterSegs : R (List (String × Val))) (le : Bool) (qs : List Bytes) :
+    (nameHist env S data ifc d iterSegs le qs).1 = qs.map (getSymbolByName env S data ifc d iterSegs le) := by
+  unfold nameHist
+  rw [(Proofs.SigCache.run_answers _ _ _ _ (Proofs.SigCache.inv_init _)).1]
+  apply List.map_congr_left
+  intro q _
+  unfold Model.SigCache.stateless nameScan getSymbolByName nameLook
+  cases iterSymbols env S data ifc d iterSegs le <;> rfl
+
+/-- a walk that raised publishes no name map: the next call walks again (fix d3667cb: a half-built map used to answer) -/
+theorem by_name_failed_walk_publishes_nothing (env : Env) (S : ElfStructs) (data : Bytes) (ifc : FileIfc) (d : Dyn)
+    (iterSegs : R (List (String × Val))) (le : Bool) (e : Err)
+    (he : iterSymbols env S data ifc d iterSegs le = .error e) (qs : List Bytes) :
+    (nameHist env S data ifc d iterSegs le qs).2.map.isSome = false := by
+  unfold nameHist
+  rw [Proofs.SigCache.run_published]
+  unfold nameScan
+  rw [he]
+  simp
 
 end PyElf.Props.C09
